@@ -3,64 +3,217 @@
     ptype <tid> name=<Name>
     pclass <pid> base=<pid|-> types=<tid,..|-|inherit> prefix=q<prefix>|inherit im=<tid:fn,..|-|inherit>
            methods=<name:gn,..|->
-    iter <pid>
+    effect <tid> im:<fn>|method:<gn>|default : <op> ; <op> ..
+            what the builder of a component of that type (the init_methods factory fn, the init method
+            gn, the type's own constructor when called without an init method) does to the prototype
+            that is being iterated, every time it runs
+    ceffect <k> : <op> ; ..        what the consumer of an iteration does between two next() calls
+    iter <pid>                     list(P<pid>())
+    run <pid> <step> ..            one new instance p = P<pid>() consumed step by step:
+                                   A / B: it = iter(p);  a / b: next(it);  L: list(p);  e<k>: ceffect k
 
-Observations per `iter`: `built <tid> im:<fn>|method:<gn>|default` for every yielded component, in
-order; plus (implementation only) `shape ok|...` (one NEW instance of exactly the listed type per
-entry, fresh on every iteration).
+  operations (p: the prototype instance, P<c>: a class of the scenario, T: the type <tid>):
+    im-set <tid> <fn>        p.init_methods[T] = fn           (in place, whichever dict the lookup finds)
+    im-del <tid>             p.init_methods.pop(T, None)      (in place)
+    inst-im <tid:fn,..|->    p.init_methods = {..}
+    inst-prefix q<prefix>    p.init_prefix = prefix
+    inst-meth <name> <gn>    p.<name> = function              inst-meth-del <name>   p.__dict__.pop(name, None)
+    inst-types <tid,..|->    p.component_types = (..)
+    cls-im <c> <..> | cls-prefix <c> q<..> | cls-meth <c> <name> <gn> | cls-meth-del <c> <name> |
+    cls-types <c> <..>       the same on the class P<c>
+
+Observations: `built <tid> im:<fn>|method:<gn>|default` for every component `iter` yields, in order,
+`built <A|B|L> <tid> <source>` / `stop <A|B>` for the steps of `run`; plus (implementation only)
+`shape ok|...`: one NEW instance of exactly the listed type per entry (and, without effects, a fresh
+set on every iteration).
 """
 import desper
 from harness.models.disp import split_list
 
 
-def run_impl(lines):
-    types, classes, obs = {}, [], []
-    for ln in lines:
+def parse_ops(toks):
+    ops, cur = [], []
+    for t in toks + [';']:
+        if t == ';':
+            if cur:
+                ops.append(cur)
+            cur = []
+        else:
+            cur.append(t)
+    return ops
+
+
+class Run:
+    def __init__(self):
+        self.types, self.classes, self.obs = {}, [], []
+        self.effects, self.ceffects = {}, {}
+        self.cur = None            # the prototype instance that is being iterated
+        self.in_factory = False
+        self.saved_proto_im = dict(desper.Prototype.init_methods)
+
+    def factory(self, label):
+        run = self
+
+        def f(comp_t):
+            return run.make(comp_t, 'im:' + label)
+        return f
+
+    def method(self, label):
+        run = self
+
+        def m(self, comp_t):
+            return run.make(comp_t, 'method:' + label)
+        return m
+
+    def inst_function(self, label):
+        run = self
+
+        def g(comp_t):
+            return run.make(comp_t, 'method:' + label)
+        return g
+
+    def make(self, comp_t, by):
+        self.in_factory = True
+        try:
+            c = comp_t()
+        finally:
+            self.in_factory = False
+        c._by = by
+        self.apply(self.effects.get((comp_t._tid, by), ()))
+        return c
+
+    def make_type(self, tid, name):
+        run = self
+
+        def __init__(self):
+            self._by = 'default'
+            if not run.in_factory:
+                run.apply(run.effects.get((tid, 'default'), ()))
+        return type(name, (), {'_tid': tid, '__init__': __init__})
+
+    def table(self, tok):
+        return {self.types[int(k)]: self.factory(v) for k, v in (p.split(':') for p in split_list(tok))}
+
+    def apply(self, ops):
+        p = self.cur
+        for op in ops:
+            k = op[0]
+            if k == 'im-set':
+                p.init_methods[self.types[int(op[1])]] = self.factory(op[2])
+            elif k == 'im-del':
+                p.init_methods.pop(self.types[int(op[1])], None)
+            elif k == 'inst-im':
+                p.init_methods = self.table(op[1])
+            elif k == 'inst-prefix':
+                p.init_prefix = op[1][1:]
+            elif k == 'inst-meth':
+                setattr(p, op[1], self.inst_function(op[2]))
+            elif k == 'inst-meth-del':
+                p.__dict__.pop(op[1], None)
+            elif k == 'inst-types':
+                p.component_types = tuple(self.types[int(x)] for x in split_list(op[1]))
+            elif k == 'cls-im':
+                self.classes[int(op[1])].init_methods = self.table(op[2])
+            elif k == 'cls-prefix':
+                self.classes[int(op[1])].init_prefix = op[2][1:]
+            elif k == 'cls-meth':
+                setattr(self.classes[int(op[1])], op[2], self.method(op[3]))
+            elif k == 'cls-meth-del':
+                if op[2] in self.classes[int(op[1])].__dict__:
+                    delattr(self.classes[int(op[1])], op[2])
+            elif k == 'cls-types':
+                self.classes[int(op[1])].component_types = tuple(
+                    self.types[int(x)] for x in split_list(op[2]))
+            else:
+                raise ValueError(op)
+
+    @staticmethod
+    def show(c):
+        return f'{getattr(type(c), "_tid", "?")} {getattr(c, "_by", "default")}'
+
+    def line(self, ln):
         t = ln.split()
         if not t:
-            continue
+            return
         if t[0] == 'ptype':
             tid = int(t[1])
-            name = t[2].split('=', 1)[1]
-            types[tid] = type(name, (), {'_tid': tid})
+            self.types[tid] = self.make_type(tid, t[2].split('=', 1)[1])
         elif t[0] == 'pclass':
             d = dict(x.split('=', 1) for x in t[2:])
-            base = desper.Prototype if d['base'] == '-' else classes[int(d['base'])]
+            base = desper.Prototype if d['base'] == '-' else self.classes[int(d['base'])]
             ns = {}
             if d['types'] != 'inherit':
-                ns['component_types'] = tuple(types[int(x)] for x in split_list(d['types']))
+                ns['component_types'] = tuple(self.types[int(x)] for x in split_list(d['types']))
             if d['prefix'] != 'inherit':
                 ns['init_prefix'] = d['prefix'][1:]
             if d['im'] != 'inherit':
-                def mk(label):
-                    def f(comp_t):
-                        c = comp_t()
-                        c._by = 'im:' + label
-                        return c
-                    return f
-                ns['init_methods'] = {types[int(k)]: mk(v) for k, v in
-                                      (p.split(':') for p in split_list(d['im']))}
+                ns['init_methods'] = self.table(d['im'])
             for name, label in (p.split(':') for p in split_list(d['methods'])):
-                def mkm(label):
-                    def m(self, comp_t):
-                        c = comp_t()
-                        c._by = 'method:' + label
-                        return c
-                    return m
-                ns[name] = mkm(label)
-            classes.append(type(f'P{t[1]}', (base,), ns))
+                ns[name] = self.method(label)
+            self.classes.append(type(f'P{t[1]}', (base,), ns))
+        elif t[0] == 'effect':
+            assert t[3] == ':'
+            self.effects[(int(t[1]), t[2])] = parse_ops(t[4:])
+        elif t[0] == 'ceffect':
+            assert t[2] == ':'
+            self.ceffects[int(t[1])] = parse_ops(t[3:])
         elif t[0] == 'iter':
-            cls = classes[int(t[1])]
-            proto = cls()
+            cls = self.classes[int(t[1])]
+            self.cur = proto = cls()
+            want = list(proto.component_types)
             first = list(proto)
-            second = list(proto)
             for c in first:
-                obs.append(f'built {getattr(type(c), "_tid", "?")} {getattr(c, "_by", "default")}')
-            want = [ty for ty in cls.component_types]
-            ok = ([type(c) for c in first] == want and [type(c) for c in second] == want
-                  and not ({id(c) for c in first} & {id(c) for c in second})
-                  and len({id(c) for c in first}) == len(first))
-            obs.append('shape ' + ('ok' if ok else 'wrong-types-or-not-fresh'))
+                self.obs.append('built ' + self.show(c))
+            ok = [type(c) for c in first] == want and len({id(c) for c in first}) == len(first)
+            if not self.effects:
+                second = list(proto)
+                ok = ok and [type(c) for c in second] == want and not ({id(c) for c in first} & {id(c) for c in second})
+            self.obs.append('shape ' + ('ok' if ok else 'wrong-types-or-not-fresh'))
+        elif t[0] == 'run':
+            cls = self.classes[int(t[1])]
+            self.cur = proto = cls()
+            its, seen, ok = {}, set(), True
+            for tok in t[2:]:
+                if tok in ('A', 'B'):
+                    its[tok] = iter(proto)
+                elif tok in ('a', 'b'):
+                    tag = tok.upper()
+                    try:
+                        c = next(its[tag])
+                    except StopIteration:
+                        self.obs.append(f'stop {tag}')
+                        continue
+                    ok = ok and id(c) not in seen
+                    seen.add(id(c))
+                    self.keep.append(c)
+                    self.obs.append(f'built {tag} ' + self.show(c))
+                elif tok == 'L':
+                    for c in list(proto):
+                        ok = ok and id(c) not in seen
+                        seen.add(id(c))
+                        self.keep.append(c)
+                        self.obs.append('built L ' + self.show(c))
+                elif tok[0] == 'e':
+                    self.apply(self.ceffects.get(int(tok[1:]), ()))
+                else:
+                    raise ValueError(ln)
+            self.obs.append('shape ' + ('ok' if ok else 'not-fresh'))
         else:
             raise ValueError(ln)
-    return obs, []
+
+    keep = []
+
+    def go(self, lines):
+        self.keep = []
+        try:
+            for ln in lines:
+                self.line(ln)
+        finally:
+            # in-place effects may have reached the dictionary all prototype classes share
+            desper.Prototype.init_methods.clear()
+            desper.Prototype.init_methods.update(self.saved_proto_im)
+        return self.obs, []
+
+
+def run_impl(lines):
+    return Run().go(lines)
